@@ -6,8 +6,11 @@ package main
 const driverTemplate = `package PKGNAME
 
 import (
+	"bytes"
 	"encoding/json"
+	"errors"
 	"fmt"
+	"io"
 	"math/rand"
 	"os"
 	"reflect"
@@ -16,6 +19,254 @@ import (
 	"testing"
 	"unsafe"
 )
+
+// ---- models for interface-typed parameters (byte streams, writers, legacy protobuf messages) ----
+// They implement the stream model of /verif/speclib/06_stream.spec: a reader delivers a fixed byte
+// sequence in arbitrary chunks and then fails with a sticky error; a writer accepts a limited
+// number of bytes and then fails; a message has a fixed encoding. Every observable call is logged.
+
+var verifSeq int
+var verifInjected = errors.New("verif: injected failure")
+var verifInjected2 = errors.New("verif: injected marshal failure")
+var _ = io.EOF
+var _ = bytes.NewReader
+
+type verifCall struct {
+	Seq int
+	P   []byte
+	Off int64
+	N   int
+	Err error
+}
+
+type verifReader struct {
+	Data  []byte
+	Pos   int
+	Fail  error
+	Chunk int
+	Eager bool
+}
+
+func (r *verifReader) Read(p []byte) (int, error) {
+	if r.Pos >= len(r.Data) {
+		return 0, r.Fail
+	}
+	n := len(p)
+	if n > r.Chunk {
+		n = r.Chunk
+	}
+	if n > len(r.Data)-r.Pos {
+		n = len(r.Data) - r.Pos
+	}
+	copy(p, r.Data[r.Pos:r.Pos+n])
+	r.Pos += n
+	if r.Eager && r.Pos >= len(r.Data) && n > 0 {
+		return n, r.Fail
+	}
+	return n, nil
+}
+
+type verifWriter struct {
+	Limit int
+	Fail  error
+	Got   int
+	Calls []verifCall
+}
+
+func (w *verifWriter) accept(p []byte, off int64) (int, error) {
+	n := len(p)
+	var err error
+	if n > w.Limit-w.Got {
+		n = w.Limit - w.Got
+		err = w.Fail
+	}
+	w.Got += n
+	verifSeq++
+	w.Calls = append(w.Calls, verifCall{Seq: verifSeq, P: append([]byte(nil), p...), Off: off, N: n, Err: err})
+	return n, err
+}
+func (w *verifWriter) Write(p []byte) (int, error)              { return w.accept(p, 0) }
+func (w *verifWriter) WriteAt(p []byte, off int64) (int, error) { return w.accept(p, off) }
+
+type verifMsg struct {
+	Body  []byte
+	MErr  error
+	UErr  error
+	Calls []verifCall
+}
+
+func (m *verifMsg) Reset()         {}
+func (m *verifMsg) String() string { return "verifMsg" }
+func (m *verifMsg) ProtoMessage()  {}
+func (m *verifMsg) Marshal() ([]byte, error) {
+	if m.MErr != nil {
+		return nil, m.MErr
+	}
+	return append([]byte(nil), m.Body...), nil
+}
+func (m *verifMsg) Unmarshal(b []byte) error {
+	verifSeq++
+	m.Calls = append(m.Calls, verifCall{Seq: verifSeq, P: append([]byte(nil), b...), Err: m.UErr})
+	return m.UErr
+}
+
+type verifVMsg struct {
+	verifMsg
+	Ver string
+}
+
+func (m *verifVMsg) GetVersion() string { return m.Ver }
+
+func verifBytes(r *rand.Rand, n int) []byte {
+	b := make([]byte, n)
+	for i := range b {
+		switch r.Intn(4) {
+		case 0:
+			b[i] = 0
+		case 1:
+			b[i] = byte(32 + r.Intn(90))
+		default:
+			b[i] = byte(r.Intn(256))
+		}
+	}
+	return b
+}
+
+// verifFrameish: bytes that often look like a pbcmpl frame (32-byte header with plausible or
+// extreme size fields) so that stream consumers get past their header checks
+func verifFrameish(r *rand.Rand) []byte {
+	n := r.Intn(80)
+	b := verifBytes(r, n)
+	if n >= 32 && r.Intn(4) != 0 {
+		le := func(o int, v uint64) {
+			for i := 0; i < 8; i++ {
+				b[o+i] = byte(v >> uint(8*i))
+			}
+		}
+		if r.Intn(3) != 0 {
+			for i := 5 + r.Intn(11); i < 16; i++ {
+				b[i] = 0
+			}
+		}
+		if r.Intn(8) != 0 {
+			le(16, 32)
+		}
+		switch r.Intn(8) {
+		case 0:
+			le(24, 1<<63)
+		case 1:
+			le(24, ^uint64(0))
+		case 2:
+			le(24, 1<<62+uint64(r.Intn(5)))
+		case 3:
+			le(24, uint64(r.Intn(1<<22)))
+		default:
+			le(24, uint64(r.Intn(n-32+6)))
+		}
+	}
+	return b
+}
+
+func verifModelFor(t reflect.Type, r *rand.Rand) (reflect.Value, bool) {
+	fail := func() error {
+		if r.Intn(3) == 0 {
+			return verifInjected
+		}
+		return io.EOF
+	}
+	var cands []interface{}
+	rd := &verifReader{Data: verifFrameish(r), Fail: fail(), Chunk: 1 + r.Intn(40), Eager: r.Intn(3) == 0}
+	if r.Intn(4) == 0 {
+		rd.Pos = r.Intn(len(rd.Data) + 1)
+	}
+	wr := &verifWriter{Limit: r.Intn(120), Fail: verifInjected}
+	if r.Intn(2) == 0 {
+		wr.Limit = 1 << 30
+	}
+	msg := &verifMsg{Body: verifBytes(r, r.Intn(40))}
+	if r.Intn(6) == 0 {
+		msg.MErr = verifInjected2
+	}
+	if r.Intn(4) == 0 {
+		msg.UErr = verifInjected
+	}
+	vm := &verifVMsg{verifMsg: *msg, Ver: string(verifBytes(r, r.Intn(17)))}
+	if r.Intn(3) == 0 {
+		vm.Ver = []string{"", "1.0.0", "1.2.3", "0123456789abcdef", "a\x00"}[r.Intn(5)]
+	}
+	cands = append(cands, rd, wr, msg, vm)
+	r.Shuffle(len(cands), func(i, j int) { cands[i], cands[j] = cands[j], cands[i] })
+	for _, c := range cands {
+		if reflect.TypeOf(c).Implements(t) {
+			return reflect.ValueOf(c), true
+		}
+	}
+	return reflect.Value{}, false
+}
+
+var verifErrNames map[string]error
+
+func verifErrDump(e error) interface{} {
+	name := func(x error) string {
+		for n, v := range verifErrNames {
+			if v == x {
+				return n
+			}
+		}
+		switch x {
+		case verifInjected:
+			return "verif.injected"
+		case verifInjected2:
+			return "verif.injected2"
+		}
+		return ""
+	}
+	c := e
+	for c != nil {
+		cc, ok := c.(interface{ Cause() error })
+		if !ok {
+			break
+		}
+		c = cc.Cause()
+	}
+	m := map[string]interface{}{"err": name(e), "text": e.Error()}
+	if c != nil {
+		m["cause"] = name(c)
+	}
+	return m
+}
+
+func verifCallsDump(cs []verifCall) []interface{} {
+	out := []interface{}{}
+	for _, c := range cs {
+		m := map[string]interface{}{"seq": c.Seq, "p": verifDump(reflect.ValueOf(c.P)), "off": strconv.FormatInt(c.Off, 10), "n": strconv.Itoa(c.N)}
+		if c.Err != nil {
+			m["err"] = verifErrDump(c.Err)
+		}
+		out = append(out, m)
+	}
+	return out
+}
+
+func verifModelDump(x interface{}) (map[string]interface{}, bool) {
+	ed := func(e error) interface{} {
+		if e == nil {
+			return nil
+		}
+		return verifErrDump(e)
+	}
+	switch m := x.(type) {
+	case *verifReader:
+		return map[string]interface{}{"model": "reader", "data": verifDump(reflect.ValueOf(m.Data)), "pos": strconv.Itoa(m.Pos), "fail": ed(m.Fail), "chunk": m.Chunk, "eager": m.Eager}, true
+	case *verifWriter:
+		return map[string]interface{}{"model": "writer", "limit": m.Limit, "fail": ed(m.Fail), "calls": verifCallsDump(m.Calls)}, true
+	case *verifMsg:
+		return map[string]interface{}{"model": "msg", "body": verifDump(reflect.ValueOf(m.Body)), "merr": ed(m.MErr), "uerr": ed(m.UErr), "calls": verifCallsDump(m.Calls)}, true
+	case *verifVMsg:
+		return map[string]interface{}{"model": "vmsg", "body": verifDump(reflect.ValueOf(m.Body)), "merr": ed(m.MErr), "uerr": ed(m.UErr), "ver": verifDump(reflect.ValueOf(m.Ver)), "calls": verifCallsDump(m.Calls)}, true
+	}
+	return nil, false
+}
 
 type verifFn struct {
 	F   interface{}
@@ -169,6 +420,12 @@ func verifRandValue(t reflect.Type, r *rand.Rand, scale int64, depth int) reflec
 		for i := 0; i < t.Len(); i++ {
 			v.Index(i).Set(verifRandValue(t.Elem(), r, scale, depth+1))
 		}
+	case reflect.Interface:
+		if t.NumMethod() > 0 && depth == 0 {
+			if m, ok := verifModelFor(t, r); ok {
+				return m // kept as the model pointer (assignable to the interface parameter)
+			}
+		}
 	}
 	return v
 }
@@ -205,6 +462,18 @@ func verifCopy(v reflect.Value) reflect.Value {
 			}
 		} else {
 			c.Elem().Set(verifCopy(v.Elem()))
+		}
+		return c
+	case reflect.Struct:
+		c := reflect.New(v.Type()).Elem()
+		c.Set(v)
+		for i := 0; i < v.NumField(); i++ {
+			if !v.Field(i).CanInterface() && !v.Field(i).CanAddr() {
+				continue
+			}
+			if c.Field(i).CanSet() {
+				c.Field(i).Set(verifCopy(v.Field(i)))
+			}
 		}
 		return c
 	}
@@ -252,6 +521,11 @@ func verifDump(v reflect.Value) interface{} {
 		if v.IsNil() {
 			return nil
 		}
+		if v.CanInterface() {
+			if md, ok := verifModelDump(v.Interface()); ok {
+				return md
+			}
+		}
 		if v.Elem().Kind() == reflect.Struct {
 			m := map[string]interface{}{}
 			for i := 0; i < v.Elem().NumField(); i++ {
@@ -269,14 +543,86 @@ func verifDump(v reflect.Value) interface{} {
 		if v.IsNil() {
 			return nil
 		}
+		if e, ok := v.Interface().(error); ok {
+			return verifErrDump(e)
+		}
+		if md, ok := verifModelDump(v.Interface()); ok {
+			return md
+		}
+		if v.Elem().Kind() == reflect.Ptr && v.Elem().Elem().Kind() == reflect.Struct {
+			return map[string]interface{}{"dyn": verifDump(v.Elem())}
+		}
 		return fmt.Sprint(v.Interface())
 	}
 	return fmt.Sprint(v.Interface())
 }
 
+func verifParseErr(j interface{}) error {
+	m, ok := j.(map[string]interface{})
+	if !ok {
+		return nil
+	}
+	n, _ := m["err"].(string)
+	if e, ok := verifErrNames[n]; ok {
+		return e
+	}
+	if n == "verif.injected2" {
+		return verifInjected2
+	}
+	return verifInjected
+}
+
+func verifParseBytes(j interface{}) []byte {
+	v, ok := verifParse(reflect.TypeOf([]byte(nil)), j)
+	if !ok {
+		if s, ok := verifParse(reflect.TypeOf(""), j); ok {
+			return []byte(s.String())
+		}
+		return nil
+	}
+	return v.Bytes()
+}
+
+// verifParseModel rebuilds an interface model from its dump (replay of a recorded input)
+func verifParseModel(t reflect.Type, m map[string]interface{}) (reflect.Value, bool) {
+	num := func(j interface{}) int {
+		switch x := j.(type) {
+		case float64:
+			return int(x)
+		case string:
+			n, _ := strconv.Atoi(x)
+			return n
+		}
+		return 0
+	}
+	var x interface{}
+	switch m["model"] {
+	case "reader":
+		eager, _ := m["eager"].(bool)
+		x = &verifReader{Data: verifParseBytes(m["data"]), Pos: num(m["pos"]), Fail: verifParseErr(m["fail"]), Chunk: num(m["chunk"]), Eager: eager}
+	case "writer":
+		x = &verifWriter{Limit: num(m["limit"]), Fail: verifParseErr(m["fail"])}
+	case "msg":
+		x = &verifMsg{Body: verifParseBytes(m["body"]), MErr: verifParseErr(m["merr"]), UErr: verifParseErr(m["uerr"])}
+	case "vmsg":
+		x = &verifVMsg{verifMsg: verifMsg{Body: verifParseBytes(m["body"]), MErr: verifParseErr(m["merr"]), UErr: verifParseErr(m["uerr"])}, Ver: string(verifParseBytes(m["ver"]))}
+	default:
+		return reflect.Value{}, false
+	}
+	if !reflect.TypeOf(x).Implements(t) {
+		return reflect.Value{}, false
+	}
+	return reflect.ValueOf(x), true
+}
+
 func verifParse(t reflect.Type, j interface{}) (reflect.Value, bool) {
 	v := reflect.New(t).Elem()
 	switch t.Kind() {
+	case reflect.Interface:
+		if m, ok := j.(map[string]interface{}); ok && m["model"] != nil {
+			return verifParseModel(t, m)
+		}
+		return v, false
 	case reflect.Bool:
 		b, ok := j.(bool)
 		v.SetBool(b)
